@@ -902,6 +902,78 @@ def more_rows_cases():
     return out
 
 
+# ------------------------------------------------------------------ pulse-correlation infidelity, control matrix gone
+def real_pc_pulse(traces, cm_cached, ff_cached):
+    """two-pulse sequence with pulse-correlation quantities; noise operator k = traceless part + traces[k]*identity"""
+    X, Y, Z = util.paulis[1:]
+    tl = [Z, X, (Y + Z) / np.sqrt(2)]
+    om = omega_tag(0)
+
+    def one(seed):
+        r = np.random.default_rng([71, seed])
+        return ff.PulseSequence([[Y, r.uniform(0.5, 1.5, 2), 'c0']],
+                                [[tl[k] + tr * np.eye(2), np.ones(2), 'n%d' % k] for k, tr in enumerate(traces)],
+                                dt_tag(0, 2), ff.Basis.pauli(1))
+    if not ff_cached and not cm_cached:
+        p = ff.concatenate([one(0), one(1)])
+        p.omega = om
+        return p
+    p = ff.concatenate([one(0), one(1)], calc_pulse_correlation_FF=True, omega=om)
+    p.get_pulse_correlation_filter_function()
+    if not cm_cached:
+        p.cleanup('greedy')           # drops the control matrices, keeps the (pulse-correlation) filter functions
+        assert p.is_cached('filter_function_pc') and not p.is_cached('control_matrix_pc')
+    return p
+
+
+def pc_infidelity_cases():
+    """(name, model expression, callable, documented, descriptor)"""
+    out = []
+    n_om = len(omega_tag(0))
+    patterns = [(0.0, 0.0), (0.6, 0.0), (0.0, -0.6), (0.6, -0.6), (0.6, 0.6), (0.0, 0.0, 0.0), (0.6, -0.6, 0.0), (0.0, 0.6, -0.6), (0.3, 0.3, -0.6)]
+    for traces in patterns:
+        n = len(traces)
+        names = ['n%d' % k for k in range(n)]
+        selections = [(None, False)] + [([nm_], False) for nm_ in names] + [([nm_], True) for nm_ in names]
+        selections += [(list(c_), False) for c_ in itertools.permutations(names, 2)]
+        if n == 3:
+            selections.append((names[::-1], False))
+        for ids, as_str in selections:
+            for cm_cached, ff_cached in ((True, True), (False, True), (False, False)):
+                sel = traces if ids is None else [traces[names.index(i_)] for i_ in ids]
+                n_idx = len(sel)
+                pulse = dict(ispulse=True, d=2, basis=0, c=[dict(op=0, id='c0')],
+                             n=[dict(op=k, id=names[k], sens=2 ** 30) for k in range(n)], dt=0, omega=0, cm=cm_cached, pc=ff_cached)
+                a = dict(pulse=pulse, which='correlations', ids=ids, ids_str=as_str, spectrum=dict(kind='ANdarray', shape=[n_idx, n_om], herm=True),
+                         omega_kind='ANdarray', omega_len=n_om, omega_tag=0, smallness=False, test_conv=False, omega_isdict=False, spacing='linear')
+                if not ff_cached:
+                    doc, nm = ('CalculationError',), 'pc-not-computed'
+                elif cm_cached:
+                    doc, nm = (), 'pc-control-matrix-cached'
+                elif any(t != 0 for t in sel):
+                    cancel = abs(sum(sel)) < 1e-12
+                    doc, nm = ('CalculationError',), ('pc-control-matrix-gone-traces-cancel' if cancel else 'pc-control-matrix-gone-trace')
+                else:
+                    doc, nm = (), 'pc-control-matrix-gone-traceless-selection'
+                if as_str:
+                    nm += '-str'
+                lit = 'validate_pc_infidelity (Build_pc_infid_d %s %s %s %s)' % (analysis_c(a), B(cm_cached), B(ff_cached),
+                                                                               lst([B(t != 0) for t in traces]))
+                desc = dict(a=a, traces=list(traces), cm_cached=cm_cached, ff_cached=ff_cached)
+                out.append((nm, lit, real_pc_call(desc), doc, desc))
+    return out
+
+
+def real_pc_call(desc):
+    a = desc['a']
+
+    def call():
+        p = real_pc_pulse(desc['traces'], desc['cm_cached'], desc['ff_cached'])
+        S = real_spectrum(a['spectrum'])
+        return ff.infidelity(p, S, omega_tag(0), n_oper_identifiers=py_ids(a), which='correlations')
+    return call
+
+
 # ------------------------------------------------------------------ small entry points
 def small_cases(r):
     """(name, coq model verdict expression, callable, documented classes)"""
@@ -1076,6 +1148,8 @@ def collect_cases(ctx, thorough):
             col.case('error-transfer-matrix', nm, lit, call, doc, dict(expr=lit))
         for nm, c, doc in infidelity_option_cases(a):
             col.case('infidelity', nm, 'validate_infidelity %s' % analysis_c(c), real_analysis(c, 'infidelity'), doc, c)
+    for nm, lit, call, doc, desc in pc_infidelity_cases():
+        col.case('pc-infidelity', nm, lit, call, doc, desc)
     for group, nm, lit, call, doc, c in more_rows_cases():
         col.case(group, nm, lit, call, doc, c)
     for nm, lit, call, doc, sig in cache_cases():
@@ -1133,6 +1207,8 @@ def realise(group, d):
         return real_analysis(d, group)
     if group in ('infidelity-derivative', 'error-transfer-matrix') and 'spectrum' in d:
         return real_analysis(d, 'derivative' if group == 'infidelity-derivative' else 'etm')
+    if group == 'pc-infidelity':
+        return real_pc_call(d)
     if group == 'cumulant' and 'spectrum' in d:
         return real_analysis(d, 'cumulant')
     if group == 'cumulant':
